@@ -58,6 +58,12 @@ def sweep(tier):
                         cases.append(_case(n, initial, final, 0, ('i8', 'i8'), 'array', delta))
     for c in cases:
         yield c
+    # sums beyond 2^63 in an unsigned 64-bit output (halo / particle offsets are uint64): compared as integers
+    for n in range(1, 5):
+        for initial in (False, True):
+            for final in (False, True):
+                yield dict(_case(n, initial, final, (1 << 63) - 1, ('u4', 'u8')), wide=True)
+                yield dict(_case(n, initial, final, 3, ('u8', 'u8')), wide=True)
     # long inputs (where a blocked / threaded fast path would live): lengths around every power of two up to 2^21 and a
     # few odd ones, for each flag combination, three dtype pairings and 1, 3, 16 numba threads
     longs = sorted({(1 << k) + d for k in range(10, 22) for d in (-1, 0, 1)} | {65537 + 64, 100003, 1000003, 3 * (1 << 19) + 5})
@@ -87,7 +93,10 @@ def _values(case):
     n = case['n']
     r = np.random.default_rng(case['vseed'])
     v = (np.arange(n) * 3 + 1) % 7 + 1 if case['vseed'] == 0 else r.integers(0, 9, n)
-    return v.astype(np.dtype(case['in']))
+    v = v.astype(np.dtype(case['in']))
+    if case.get('wide') and case['in'] == 'u8' and n:
+        v[0] = 1 << 63
+    return v
 
 
 class GapsWritten(Exception):
@@ -140,6 +149,14 @@ def kernel_call(case, arena):
     if arena is not None and gaps is not None and not (gaps[1::2] == 77).all():
         raise GapsWritten('slots between the elements of a strided output were written')
     return np.array(out, copy=True), np.asarray(total)
+
+
+def expected_int(case):
+    ref = [int(case['offset'])]
+    for x in _values(case).tolist():
+        ref.append(ref[-1] + int(x))
+    n = case['n']
+    return ref[1 - int(case['initial']): n + int(case['final'])], ref[n]
 
 
 def expected(case):
@@ -201,9 +218,17 @@ def run(case):
         violation(out, 'depends-on-memory-outside-arrays', site,
                   {'case': case, 'total_fill_A': float(ra[1]), 'total_fill_B': float(rb[1])})
         return out
+    if case.get('wide'):
+        eo, et = expected_int(case)
+        got_o, got_t = ra
+        if [int(x) for x in got_o.tolist()] != eo or int(got_t) != et:
+            violation(out, 'wrong-partial-sums', site, {'case': case, 'got': [int(x) for x in got_o.tolist()][:10], 'expected': eo[:10],
+                                                        'total': int(got_t), 'expected_total': et, 'compared': 'as integers'})
+            return out
+        bump(out['probes'], 'sum-beyond-2^63-in-uint64')
     eo, et = expected(case)
     got_o, got_t = ra
-    if got_o.shape != eo.shape or not np.array_equal(got_o.astype(np.float64), eo) or float(got_t) != float(et):
+    if not case.get('wide') and (got_o.shape != eo.shape or not np.array_equal(got_o.astype(np.float64), eo) or float(got_t) != float(et)):
         violation(out, 'wrong-partial-sums', site, {'case': case, 'got': got_o.astype(np.float64).tolist()[:10],
                                                     'expected': eo.tolist()[:10], 'total': float(got_t), 'expected_total': float(et)})
         return out
@@ -235,9 +260,9 @@ def shrink(case):
     if case['n'] > 0:
         yield dict(c, n=case['n'] // 2)
         yield dict(c, n=case['n'] - 1)
-    if case['offset']:
+    if case['offset'] and not case.get('wide'):
         yield dict(c, offset=0)
-    if (case['in'], case['out']) != ('i8', 'i8'):
+    if (case['in'], case['out']) != ('i8', 'i8') and not case.get('wide'):
         yield dict(c, **{'in': 'i8', 'out': 'i8'})
     if case['container'] == 'list':
         yield dict(c, container='array')
